@@ -190,6 +190,11 @@ class FabricRun(object):
           out = self.ao_start(op[1])
         elif kind == 'ao_wake':
           out = self.ao_wake(op[1])
+        elif kind == 'ao_print':
+          # live output through the writer thread (ActiveObject.print), whatever the fabric is doing
+          o = self.aos.get(op[1])
+          if o is not None:
+            o.print('note %d' % i)
         elif kind == 'pop':
           # a consumer of a plain deque taking what was delivered so far
           try:
